@@ -138,20 +138,15 @@ def _serve():
                     except Exception as e:
                         rep['matches'] = ['exc', type(e).__name__]
             elif op == 'rule':
-                # C16: Read(rule text).RunReactants([mol]) -> product sets
-                from pgradd.RINGParser.Reader import Read
-                try:
-                    rule = Read(req['text'])
-                except Exception as e:
-                    rep = {'read': _exc(e)}
-                else:
-                    rep = {'read': 'ok'}
-                    try:
-                        with contextlib.redirect_stdout(io.StringIO()):
-                            ps = rule.RunReactants([_mol(req)])
-                        rep['products'] = _canon_sets(ps)
-                    except Exception as e:
-                        rep['products'] = ['exc', type(e).__name__]
+                # C16: Read(rule text).RunReactants(mol) -> product sets in the canonical form of harness/c16.py (run_sets)
+                from . import c16
+                c16.rd()
+                rq, cls = c16.impl_read(req['text'])
+                rep = {'read': cls}
+                if rq is not None:
+                    with contextlib.redirect_stdout(io.StringIO()):
+                        r = c16.run_sets(rq, _mol(req))
+                    rep['products'] = r[1] if r[0] == 'ok' else ['exc', r[1]]
             elif op == 'net':
                 # C17: GenerateRxnNet(seeds, rules) -> sorted canonical species
                 from pgradd.RINGParser.Reader import Read
